@@ -447,17 +447,28 @@ CHECKS = {
                    "headers: error at the corrupted position, never an altered message, no huge allocation. Handshakes (ECIES + "
                    "devp2p) and discovery packets (ping / pong / findnode / neighbors and their mutations): error or clean "
                    "handling, never a panic, a flipped bit never decodes under the original sender id.",
-        level_note="'Cannot block the message loop indefinitely' is liveness: a 20 s wait that is reported as inconclusive, never as "
-                   "a violation (0 such waits in the last 30k sessions). Not built with -race (the detector reports a node-internal "
-                   "race in discover.Table on Close which is outside the listed properties).",
+        level_note="'Cannot block the message loop indefinitely' is decided structurally, not by time: a delivery that does not come "
+                   "back is a violation (C15/message-loop-blocked/<function>) only if the peer's handler goroutine is parked in a "
+                   "channel operation below handleMsg, with the same stack in two goroutine dumps >= 400 ms apart, and no goroutine "
+                   "exists that could release it (for downloader.DeliverHashes/DeliverBlocks: nothing inside the downloader's sync "
+                   "cycle or about to start one, and no connected peer claims more than the node has, so the syncer's tick cannot "
+                   "start a cycle; for fetcher entry points: no fetcher loop); every other wait that exceeds 20 s stays "
+                   "inconclusive (0 in the last 30k sessions). TestC15AfterSync generates the histories the rule needs: sync "
+                   "completed / failed / none / deliveries during a cycle, then unsolicited hash and momentum deliveries. Not built "
+                   "with -race (the detector reports a node-internal race in discover.Table on Close which is outside the listed "
+                   "properties).",
         technique="session-level stateful property testing (rapid) with reply-size and survival oracles; byte-level mutation testing of "
                   "frames / packets against an independent reference encoder; native fuzzing of payloads, frames and packets",
         rule="non-trivial = session with >=1 message that decodes far enough to reach a chain lookup or insert; frame stream whose "
              "first differing byte lies after a header MAC (or a crafted header with valid MAC); packet that passes the hash check; "
-             "handshake message that passes ECIES integrity",
-        assumptions=["a fake msg.Size stands for the frame size; codes >= 9 never reach the handler in the real stack"],
+             "handshake message that passes ECIES integrity; after-sync case in which the downloader's cycle completed (node at "
+             "the presented tip, peer still connected) before the unsolicited deliveries",
+        assumptions=["a fake msg.Size stands for the frame size; codes >= 9 never reach the handler in the real stack",
+                     "'blocked indefinitely' = no goroutine of the process can release the handler and no synchronisation can start "
+                     "without a further message; stimuli the harness could still send are not counted as releasers"],
         death_is_violation=True,
         jobs=[dict(test="TestC15Session", pkg="p15", quick=T(8, 350), thorough=T(12, 3000, 0, 3000)),
+              dict(test="TestC15AfterSync", pkg="p15", quick=T(4, 120), thorough=T(8, 2500, 0, 3000)),
               dict(test="TestC15Frames", pkg="p15", quick=T(2, 8000), thorough=T(4, 250000, 0, 3000)),
               dict(test="TestC15Discovery", pkg="p15", quick=T(2, 3000), thorough=T(4, 40000, 0, 3000)),
               dict(test="TestC15Handshake", pkg="p15", quick=T(1, 2500), thorough=T(2, 30000, 0, 3000)),
